@@ -412,6 +412,11 @@ class ExecBase:
             return a.t == b.t
         if self.spec and {type(a.ty), type(b.ty)} <= {Ref, Fut, type(INT)} and (a.ty == INT or b.ty == INT):
             return a.t == b.t          # specs may quantify over object identities as integers
+        if self.spec and PYOBJ in (a.ty, b.ty):
+            # a clause compares a modelled value with one the model knows nothing about (an attribute outside the class
+            # model): not decidable from the model, so an unconstrained boolean - the clause cannot be discharged through it,
+            # and the witness search decides on the real code
+            return z3.FreshConst(z3.BoolSort(), "eq_with_unmodelled_value")
         raise Unsupported("== between %s and %s (line %s)" % (a.ty, b.ty, self.cur_line))
 
     # ------------------------------------------------------------- exceptions
